@@ -1,6 +1,14 @@
 package main
 
 // Portfolio solving of obligations with z3 4.8.12, z3 5.1.0 (z3-new) and cvc5.
+//
+// Each obligation is written twice: the full query, and a "relaxed" query in
+// which every top-level quantified assertion (axioms of the prelude, pointer
+// injectivity axioms) is dropped. unsat of either proves the obligation (the
+// relaxed query has fewer hypotheses). sat of the full query is a real
+// counter-model; sat of only the relaxed query is a *candidate* model, used
+// for replay on the real code (solvers cannot answer sat in the presence of
+// the quantified axioms, so this is how executable failing inputs are found).
 
 import (
 	"bytes"
@@ -15,22 +23,22 @@ import (
 )
 
 type SolveResult struct {
-	Name     string             `json:"name"`
-	Kind     string             `json:"kind"`
-	Props    []string           `json:"props,omitempty"`
-	Result   string             `json:"result"` // unsat (discharged) | sat | unknown | timeout | error
-	Solver   string             `json:"solver"`
-	TimeS    float64            `json:"time_s"`
-	SMTBytes int                `json:"smt_bytes"`
-	Model    string             `json:"model,omitempty"`
-	File     string             `json:"-"`
-	Canary   bool               `json:"canary,omitempty"`
-	Safety   bool               `json:"safety,omitempty"`
-	Clause   string             `json:"clause,omitempty"`
-	Line     int                `json:"line,omitempty"`
-	Func     string             `json:"func"`
-	PerSolv  map[string]float64 `json:"-"`
-	Output   string             `json:"-"`
+	Name     string  `json:"name"`
+	Kind     string  `json:"kind"`
+	Props    []string `json:"props,omitempty"`
+	Result   string  `json:"result"` // unsat (discharged) | sat | unknown | timeout | error
+	Solver   string  `json:"solver"`
+	TimeS    float64 `json:"time_s"`
+	SMTBytes int     `json:"smt_bytes"`
+	Model    string  `json:"model,omitempty"`
+	File     string  `json:"-"`
+	Canary   bool    `json:"canary,omitempty"`
+	Safety   bool    `json:"safety,omitempty"`
+	Clause   string  `json:"clause,omitempty"`
+	Line     int     `json:"line,omitempty"`
+	Func     string  `json:"func"`
+	Relaxed  bool    `json:"relaxed_model,omitempty"` // sat only for the relaxed query: candidate model
+	Output   string  `json:"-"`
 }
 
 type solverSpec struct {
@@ -69,7 +77,50 @@ func (x *Exec) obligationText(o *Obligation) string {
 	return b.String()
 }
 
-var solverTime sync.Map // name -> *float64 accumulators guarded by mu
+// relaxText drops every top-level (assert (forall ...)) form.
+func relaxText(text string) string {
+	var b strings.Builder
+	i := 0
+	n := len(text)
+	for i < n {
+		if text[i] != '(' {
+			b.WriteByte(text[i])
+			i++
+			continue
+		}
+		// find the end of this top-level form
+		d := 0
+		j := i
+		for j < n {
+			switch text[j] {
+			case '(':
+				d++
+			case ')':
+				d--
+			case '"':
+				j++
+				for j < n && text[j] != '"' {
+					j++
+				}
+			case ';':
+				for j < n && text[j] != '\n' {
+					j++
+				}
+			}
+			j++
+			if d == 0 {
+				break
+			}
+		}
+		form := text[i:j]
+		if !(strings.HasPrefix(form, "(assert (forall") || strings.HasPrefix(form, "(assert (! (forall")) {
+			b.WriteString(form)
+		}
+		i = j
+	}
+	return b.String()
+}
+
 var solverMu sync.Mutex
 var solverSecs = map[string]float64{}
 
@@ -104,49 +155,82 @@ func runSolver(ctx context.Context, s solverSpec, file string, timeoutS int) (st
 	return "error", text, dt
 }
 
-// solveOne races the solvers; the first definite answer (sat/unsat) wins.
-func solveOne(file string, timeoutS int, which []solverSpec) (res, solver, output string, secs float64) {
+type solveAnswer struct {
+	res, solver, output string
+	secs                float64
+	relaxed             bool
+}
+
+// solveOne races the solvers on the full query and one solver on the relaxed
+// query. unsat from anywhere wins immediately; sat from the full query wins
+// immediately; a relaxed sat is kept as a candidate until the full queries end.
+func solveOne(file, relaxedFile string, timeoutS int, which []solverSpec) solveAnswer {
 	ctx, cancel := context.WithCancel(context.Background())
 	defer cancel()
-	type ans struct {
-		r, s, o string
-		t       float64
-	}
-	ch := make(chan ans, len(which))
+	ch := make(chan solveAnswer, len(which)+1)
+	n := 0
 	for _, s := range which {
 		s := s
+		n++
 		go func() {
 			r, o, t := runSolver(ctx, s, file, timeoutS)
-			ch <- ans{r, s.name, o, t}
+			ch <- solveAnswer{r, s.name, o, t, false}
 		}()
 	}
-	best := ans{r: "timeout"}
+	if relaxedFile != "" {
+		n++
+		go func() {
+			r, o, t := runSolver(ctx, solvers[1], relaxedFile, timeoutS)
+			if r != "sat" && r != "unsat" {
+				// second opinion on the relaxed query
+				r2, o2, t2 := runSolver(ctx, solvers[2], relaxedFile, timeoutS)
+				if r2 == "sat" || r2 == "unsat" {
+					ch <- solveAnswer{r2, solvers[2].name + "(relaxed)", o2, t + t2, true}
+					return
+				}
+			}
+			ch <- solveAnswer{r, solvers[1].name + "(relaxed)", o, t, true}
+		}()
+	}
+	best := solveAnswer{res: "timeout"}
+	var cand *solveAnswer
 	var errOut string
-	for range which {
+	for i := 0; i < n; i++ {
 		a := <-ch
-		if a.r == "sat" || a.r == "unsat" {
-			return a.r, a.s, a.o, a.t
-		}
-		if a.r == "error" {
-			errOut = a.s + ": " + a.o
-		}
-		if a.r == "unknown" {
-			best = a
-		} else if best.r == "timeout" && a.r == "error" && best.s == "" {
-			best = a
+		switch {
+		case a.res == "unsat":
+			return a
+		case a.res == "sat" && !a.relaxed:
+			return a
+		case a.res == "sat" && a.relaxed:
+			c := a
+			cand = &c
+		case a.res == "error":
+			if !a.relaxed {
+				errOut = a.solver + ": " + a.output
+				if best.res == "timeout" && best.solver == "" {
+					best = a
+				}
+			}
+		case a.res == "unknown":
+			if !a.relaxed {
+				best = a
+			}
 		}
 	}
-	if best.r == "error" {
-		return "error", best.s, errOut, best.t
+	if cand != nil {
+		return *cand
 	}
-	return best.r, best.s, best.o, best.t
+	if best.res == "error" {
+		best.output = errOut
+	}
+	return best
 }
 
 func solveAll(x *Exec, dir string, timeoutS int, par int, filter func(*Obligation) bool) []*SolveResult {
 	var results []*SolveResult
 	var wg sync.WaitGroup
 	sem := make(chan struct{}, par)
-	var mu sync.Mutex
 	for i, o := range x.obls {
 		if filter != nil && !filter(o) {
 			continue
@@ -154,29 +238,31 @@ func solveAll(x *Exec, dir string, timeoutS int, par int, filter func(*Obligatio
 		text := x.obligationText(o)
 		file := filepath.Join(dir, fmt.Sprintf("%s_%03d.smt2", sanitize(x.short), i))
 		os.WriteFile(file, []byte(text), 0o644)
+		relaxed := ""
+		if rt := relaxText(text); rt != text {
+			relaxed = filepath.Join(dir, fmt.Sprintf("%s_%03d.relaxed.smt2", sanitize(x.short), i))
+			os.WriteFile(relaxed, []byte(rt), 0o644)
+		}
 		r := &SolveResult{Name: o.Name, Kind: o.Kind, Props: o.Props, SMTBytes: len(text), File: file, Canary: o.Canary, Safety: o.Safety, Clause: o.Clause, Line: o.Line, Func: o.Func}
-		mu.Lock()
 		results = append(results, r)
-		mu.Unlock()
 		wg.Add(1)
 		sem <- struct{}{}
-		go func() {
+		go func(o *Obligation) {
 			defer wg.Done()
 			defer func() { <-sem }()
-			which := solvers
-			if x.X.bvMode {
-				which = solvers
-			}
 			to := timeoutS
 			if o.Canary && to > 3 {
 				to = 3
 			}
-			res, s, out, t := solveOne(file, to, which)
-			r.Result, r.Solver, r.TimeS, r.Output = res, s, t, out
-			if res == "sat" {
-				r.Model = out
+			a := solveOne(file, relaxed, to, solvers)
+			r.Result, r.Solver, r.TimeS, r.Output, r.Relaxed = a.res, a.solver, a.secs, a.output, a.relaxed && a.res == "sat"
+			if a.res == "sat" {
+				r.Model = a.output
+				if a.relaxed {
+					r.File = relaxed
+				}
 			}
-		}()
+		}(o)
 	}
 	wg.Wait()
 	return results
